@@ -290,7 +290,7 @@ impl<T, Ptr: PointerFamily> MetaSlotMap<T, Ptr> {
 
     pub(crate) unsafe fn store_value(&mut self, key: SlotMapKey, value: T) -> bool {
         self.verify_init("store()");
-        if key.0 > self.capacity_impl() {
+        if key.0 >= self.capacity_impl() {
             return false;
         }
 
